@@ -340,7 +340,7 @@ func runCorpus(t *rapid.T, rec *ev.Recorder, open func(*stor.Epoch) (*target, er
 				}
 				return false
 			}
-			got, pages, perr := paginate(tg, cnr, q, uint16(p), len(exp)+3)
+			got, pages, perr := paginate(tg, cnr, q, uint16(p), len(view)+3)
 			if perr != nil {
 				switch {
 				case perr.prep && perr.page == 0 && errors.Is(perr.err, objectcore.ErrUnreachableQuery):
